@@ -174,6 +174,8 @@ def run(ctx) -> None:
                 bad.add(str(exprs)[:100])
         ctx.check(bool(runs) and not bad, "C16.I5.whole-text-parsed-once", f"ComposableProducer.process_file[{ft}{', every config key set' if cfg else ''}]", ";".join(sorted(bad))[:200],
                   "the parser receives the complete listing text in one piece (no chunking, slicing or filtering of the text)")
+    from ._matchrules import assembly_text_unmodified
+    assembly_text_unmodified(ctx, "C16.I5.listing-read-in-text-mode")
     # I6: nothing in the parser keeps state between lines or runs
     from ..census import global_state
     for kind, name, where, detail in global_state(ctx.p):
